@@ -459,7 +459,7 @@ class StmtMixin(object):
             return
         if isinstance(it, Phi):
             iterables = [a for a in it.terms()]
-            special = [a for a in iterables if isinstance(a, (GenObj, ListObj, TupleT))
+            special = [a for a in iterables if isinstance(a, (GenObj, ListObj, TupleT, Obj))
                        or self.unwrap_enumerate(a) is not None]
             if special:
                 start = self.cur
@@ -483,11 +483,22 @@ class StmtMixin(object):
 
             def per2(val, _src=src):
                 per_item(TupleT((Index(_src), val)))
-            self.g_last_enumerate = (src, start)
+            self.emit('enumerate', node, {'source': src, 'start': start})
             self.iterate(src, per2, names, node)
             return
         if isinstance(it, GenObj):
             return self.weave(it, per_item, names, node)
+        if isinstance(it, Obj):
+            mem = self.find_member(it.cls, '__iter__')
+            if mem and mem[0] == 'method':
+                inner = self.call_function(mem[2], [it], {}, node)
+                return self.iterate(inner, per_item, names, node)
+            if '_tuple' in it.fields:
+                return self.iterate(it.fields['_tuple'], per_item, names, node)
+            f = self.nt_fields(it.cls)
+            if f:
+                return self.iterate(TupleT(tuple(it.fields.get(x, Unknown('unset'))
+                                                 for x in f)), per_item, names, node)
         if isinstance(it, TupleT) or (isinstance(it, ListObj) and not it.open):
             items = list(it.items)
             if len(items) <= UNROLL_LIMIT:
